@@ -62,6 +62,8 @@ class Gen:
             is_sub = allow_sub and depth > 1 and rng.random() < 0.2
             if not flat and segs[0]["k"] == "lit" and rng.random() < 0.35:
                 segs.append(dict(k="enum", n=rng.choice([1, 2, 3, 12])))
+            if flat and not is_sub and rng.random() < 0.15:      # a leaf whose literal name has several components ("ab/c") in a table without '#'
+                segs[0]["s"] = segs[0]["s"] + [47] + [ord(rng.choice(A))]
             types = dict(has=False, alts=[])
             if is_sub:
                 last = segs[-1]
@@ -103,7 +105,7 @@ def expand(segs):
         if g["k"] == "lit":
             outs = [o + bytes(g["s"]).decode() for o in outs]
         else:
-            outs = [o + str(v) for o in outs for v in ([0, g["n"] - 1, g["n"], g["n"] + 1])]
+            outs = [o + str(v) for o in outs for v in ([0, g["n"] - 1, g["n"], g["n"] + 1])] + [o + "0" * k + str(g["n"] - 1) for o in outs[:2] for k in (1, 6)]     # leading zeros (the model reads indices of up to nine digits)
     return outs
 
 
@@ -164,7 +166,7 @@ def walk_table(gen, depth, maxports, multi=False, runtime=False):
         extra = []
         for p in t["ports"]:
             if not p["leaf"]:
-                if multi and rng.random() < 0.5:
+                if multi and rng.random() < 0.5 and p["pat"]["segs"][0]["k"] == "lit":      # (a name that BEGINS with its enumeration stays as it is)
                     segs = p["pat"]["segs"]
                     # turn "x/" into "x#2/y#3/z/" style
                     base = segs[0]["s"][:]
